@@ -48,6 +48,7 @@ def kernel_job(job):
     import pyrates.backend.base.base_backend as bb
     bb.float = lambda x=0.0: x if isinstance(x, Sym) else builtins.float(x)
     n, steps, heun, tau_steps = job['n'], job['steps'], job['heun'], job['tau_steps']
+    store = job.get('store', 1)      # sampling_step_size = store * step_size: the history must still be fed on the dt grid
     dt = F(1, 4)
     tau = dt * tau_steps
     tally = decide.Tally()
@@ -70,7 +71,7 @@ def kernel_job(job):
     else:
         kern = bb.BaseBackend._solve_heun if heun else bb.BaseBackend._solve_euler
     try:
-        rec = kern(func, (hist,), float(dt * steps), float(dt), float(dt), y, 0)
+        rec = kern(func, (hist,), float(dt * steps), float(dt), float(dt * store), y, 0)
     except Exception as e:   # noqa
         out['inconclusive'].append(dict(what=f"kernel raised under symx: {type(e).__name__}: {e}"))
         out['tally'] = tally.as_dict()
@@ -91,7 +92,7 @@ def kernel_job(job):
     rec = np.asarray(rec, dtype=object)
     for k in range(rec.shape[0]):
         for i in range(n):
-            v, _ = decide.prove_equal(rec[k, i], Sym(traj[k][i]), tally=tally)
+            v, _ = decide.prove_equal(rec[k, i], Sym(traj[k * store][i]), tally=tally)
             if v == 'sat':
                 conf = _replay_dde(job, k, i)
                 if conf is None:
@@ -117,6 +118,7 @@ def _replay_dde(job, k, i):
     import pyrates.backend.base.base_backend as bb
     vars(bb).pop('float', None)
     n, steps, heun, tau_steps = job['n'], job['steps'], job['heun'], job['tau_steps']
+    store = job.get('store', 1)
     dt = 0.25
     tau = dt * tau_steps
 
@@ -133,14 +135,14 @@ def _replay_dde(job, k, i):
 
             def f_t(step, y, h, *a):
                 return torch.as_tensor(g(float(step), y.numpy(), np.asarray(h(float(step) * dt - tau))))
-            rec = tb.TorchBackend._solve_euler(f_t, (hist,), dt * steps, dt, dt, torch.as_tensor(y0.copy()), 0)
+            rec = tb.TorchBackend._solve_euler(f_t, (hist,), dt * steps, dt, dt * store, torch.as_tensor(y0.copy()), 0)
         else:
             hist = bb.DDEHistory(y0.copy(), t0=0.0)
 
             def f_b(step, y, h, *a):
                 return g(float(step), y, np.asarray(h(float(step) * dt - tau)))
             kern = bb.BaseBackend._solve_heun if heun else bb.BaseBackend._solve_euler
-            rec = kern(f_b, (hist,), dt * steps, dt, dt, y0.copy(), 0)
+            rec = kern(f_b, (hist,), dt * steps, dt, dt * store, y0.copy(), 0)
     except Exception as e:   # noqa
         return (f"raised {type(e).__name__}: {e}", None)
     traj = [y0.copy()]
@@ -153,7 +155,7 @@ def _replay_dde(job, k, i):
             traj.append(cur + dt / 2 * (f1 + f2))
         else:
             traj.append(cur + dt * f1)
-    got, want = float(np.asarray(rec)[k, i]), float(traj[k][i])
+    got, want = float(np.asarray(rec)[k, i]), float(traj[k * store][i])
     if abs(got - want) > 1e-9 * max(1.0, abs(want)):
         return got, want
     return None
@@ -193,6 +195,12 @@ def run(tier='quick', seed=0, only=None, verbose=False):
                 for n in (1, 2):
                     kj.append(dict(key=f"kernel:steps={steps}:tau={tau_steps}:{'heun' if heun else 'euler'}:n={n}",
                                    steps=steps, tau_steps=tau_steps, heun=heun, n=n))
+                    if steps % 2 == 0 and tau_steps >= 2:      # sampling every second step
+                        kj.append(dict(key=f"kernel:steps={steps}:tau={tau_steps}:{'heun' if heun else 'euler'}:n={n}:store=2",
+                                       steps=steps, tau_steps=tau_steps, heun=heun, n=n, store=2))
+                        if not heun:
+                            kj.append(dict(key=f"kernel:torch:steps={steps}:tau={tau_steps}:euler:n={n}:store=2", steps=steps,
+                                           tau_steps=tau_steps, heun=False, n=n, backend='torch', store=2))
                     if not heun:        # the torch backend has its own Euler kernel (and accepts delayed models)
                         kj.append(dict(key=f"kernel:torch:steps={steps}:tau={tau_steps}:euler:n={n}", steps=steps,
                                        tau_steps=tau_steps, heun=False, n=n, backend='torch'))
